@@ -114,8 +114,9 @@ type ctxVal struct {
 }
 
 type timeVal struct {
-	ns   value // int64 | *Term: unix nanoseconds
-	zero bool  // Go zero time (year 1)
+	ns   value  // int64 | *Term: unix nanoseconds
+	zero bool   // Go zero time (year 1)
+	zone string // "" = UTC; otherwise the process-local zone (value of TZ) the time was created in
 }
 
 // ---- maps ------------------------------------------------------------------------
